@@ -21,7 +21,7 @@ PROPS = {
                 dict(module="MC_Feistel", tier="thorough", timeout=1200, about="same with 4 rounds: 16.8M states"),
                 dict(module="MC_Feistel", cfg="MC_Feistel_neg", expect="violation", about="negative: decryption with round keys in the same order must be refuted")],
         stages=[dict(suite="sm4blk", nda="compare", trace="TraceSM4", plan=dict(module="PlanSM4", cfg_quick="PlanSM4_q", cfg_thorough="PlanSM4_t"),
-                     required_classes={"both": ["sm4.enc/sm4.enc.badlen", "sm4.dec/sm4.dec.badlen", "sm4.enc/sm4.enc.fresh", "sm4.dec/sm4.dec.prev", "sm4.enc/sm4.enc.repeat", "sm4.dec/sm4.dec.fresh", "sm4.enc/sm4.enc.crafted", "sm4.dec/sm4.dec.crafted", "sm4.enc/sm4.enc.craftedkey"]})],
+                     required_classes={"both": ["sm4.enc/sm4.enc.cloned", "sm4.dec/sm4.dec.cloned", "sm4.enc/sm4.enc.badlen", "sm4.dec/sm4.dec.badlen", "sm4.enc/sm4.enc.fresh", "sm4.dec/sm4.dec.prev", "sm4.enc/sm4.enc.repeat", "sm4.dec/sm4.dec.fresh", "sm4.enc/sm4.enc.crafted", "sm4.dec/sm4.dec.crafted", "sm4.enc/sm4.enc.craftedkey"]})],
         assumptions=["SM4.tla transcribes GB/T 32907 (S-box defined algebraically and ASSUMEd equal to the table; standard example as ASSUME)"],
     ),
     "C07": dict(
@@ -85,7 +85,7 @@ PROPS = {
                 dict(module="MC_SM2Sig", cfg="MC_SM2Sig_q_zero", expect="violation", about="negative: verification without the r,s != 0 check must be refuted"),
                 dict(module="MC_SM2Sig", cfg="MC_SM2Sig_q_inf", expect="violation", about="negative: the pinned commit's handling of [s]G + [t]P = O (x1 read as 0) must be refuted")],
         stages=[dict(suite="sm2ver", nda="validate", trace="TraceSM2", plan=dict(module="PlanSM2Sig", cfg_quick="PlanSM2Sig_q", cfg_thorough="PlanSM2Sig_t"),
-                     required_classes={"both": ["sm2.verify_digest/digest.neg-gen-key", "sm2.verify_digest/digest.gen-key", "sm2.verify_digest/digest.big-e", "sm2.verify/untouched", "sm2.verify/tampered64", "sm2.verify/len<64", "sm2.verify/len>64",
+                     required_classes={"both": ["sm2.verify/altered-id-edge", "sm2.verify_digest/digest.neg-gen-key", "sm2.verify_digest/digest.gen-key", "sm2.verify_digest/digest.big-e", "sm2.verify/untouched", "sm2.verify/tampered64", "sm2.verify/len<64", "sm2.verify/len>64",
                                                 "sm2.verify_digest/digest.small-s", "sm2.verify_digest/digest.s+n", "sm2.verify_digest/digest.r+n", "sm2.verify_digest/digest.t=0", "sm2.verify_digest/digest.sum-is-infinity", "sm2.verify_digest/digest.near-miss",
                                                 "sm2.verify_digest/digest.s=0", "sm2.verify_digest/digest.r=0", "sm2.verify_digest/digest.s=n", "sm2.verify_digest/digest.r=n", "sm2.verify_digest/digest.sparse-t"]})],
         assumptions=["SM2.tla transcribes GB/T 32918.2", "BigNat Java override (cross-checked by MC_BigNat)"],
@@ -118,7 +118,7 @@ PROPS = {
                 dict(module="MC_SM2Enc", cfg="MC_SM2Enc_q_prefix", expect="violation", about="negative: any prefix byte read as uncompressed must be refuted"),
                 dict(module="MC_SM2Enc", cfg="MC_SM2Enc_q_hash", expect="violation", about="negative: decryption without the C3 comparison must be refuted")],
         stages=[dict(suite="sm2dec", nda="validate", trace="TraceSM2", plan=dict(module="PlanSM2Enc", cfg_quick="PlanSM2Enc_q", cfg_thorough="PlanSM2Enc_t"),
-                     required_classes={"both": ["sm2.decrypt/negate-c1", "sm2.decrypt/untouched", "sm2.decrypt/flip-c1", "sm2.decrypt/flip-body", "sm2.decrypt/truncated",
+                     required_classes={"both": ["sm2.decrypt/valid-sparse-mont-x", "sm2.decrypt/negate-c1", "sm2.decrypt/untouched", "sm2.decrypt/flip-c1", "sm2.decrypt/flip-body", "sm2.decrypt/truncated",
                                                 "sm2.decrypt/offcurve", "sm2.decrypt/retag", "sm2.decrypt/retag-junk-y", "sm2.decrypt/valid-window-y2", "sm2.decrypt/comp-valid-window-y2", "sm2.decrypt/valid-window-x2+a", "codec.asn1_dec/asn1.dec.valid-window-y2", "sm2.decrypt/x+p", "sm2.decrypt/nonresidue", "sm2.decrypt/valid-small-x", "codec.asn1_dec/asn1.dec.offcurve", "codec.asn1_dec/asn1.dec.valid-small-x", "sm2.decrypt/fold-c3", "sm2.decrypt/c1-zero-forged", "codec.asn1_dec/asn1.dec.c1-zero-forged"]})],
         assumptions=["SM2.tla transcribes GB/T 32918.4 and the SEC1 point decoding rules"],
     ),
@@ -154,7 +154,7 @@ PROPS = {
                 dict(module="MC_DerInt", cfg="MC_DerInt_onezero", expect="violation", workers=2, about="negative: restoring at most one dropped zero digit must be refuted"),
                 dict(module="AnchorSM2Codec", anchor=True, about="SM2Codec.tla reproduces the OpenSSL-made SPKI/PKCS#8 DER+PEM and decodes/re-encodes/decrypts the 18 OpenSSL GM/T 0009 ciphertexts")],
         stages=[dict(suite="sm2codec", nda="validate", trace="TraceSM2",
-                     required_classes={"both": ["codec.decode/decode.pk_hex.odd-digits", "codec.decode/decode.sk_hex.odd-digits", "codec.decode/decode.pk_hex.uppercase", "codec.encode/encode.plain", "codec.decode/decode.pk_bytes.roundtrip", "codec.decode/decode.pkcs8_der.compressed-pub", "codec.decode/decode.pkcs8_der.no-pub", "codec.decode/decode.spki_der.compressed-pub", "codec.decode/decode.pkcs8_pem.compressed-pub", "codec.decode/decode.spki_pem.compressed-pub", "codec.decode/decode.spki_pem.openssl", "codec.decode/decode.pkcs8_pem.openssl",
+                     required_classes={"both": ["codec.decode/decode.pk_bytes.untagged", "codec.decode/decode.spki_der.untagged", "codec.decode/decode.pk_hex.odd-digits", "codec.decode/decode.sk_hex.odd-digits", "codec.decode/decode.pk_hex.uppercase", "codec.encode/encode.plain", "codec.decode/decode.pk_bytes.roundtrip", "codec.decode/decode.pkcs8_der.compressed-pub", "codec.decode/decode.pkcs8_der.no-pub", "codec.decode/decode.spki_der.compressed-pub", "codec.decode/decode.pkcs8_pem.compressed-pub", "codec.decode/decode.spki_pem.compressed-pub", "codec.decode/decode.spki_pem.openssl", "codec.decode/decode.pkcs8_pem.openssl",
                                                 "codec.decode/decode.pk_bytes.off-curve", "codec.asn1_enc/asn1.enc.x-lead0x1", "codec.asn1_enc/asn1.enc.y-lead0x1", "codec.asn1_enc/asn1.enc.x-lead0x2", "codec.asn1_enc/asn1.enc.y-lead0x2", "codec.asn1_dec/asn1.dec.openssl"]})],
         assumptions=["SM2Codec.tla: SEC1 / hex / SPKI / PKCS#8 templates / PEM / GM/T 0009 DER, anchored by OpenSSL-made documents (committed corpus, not a live OpenSSL)"],
     ),
@@ -175,7 +175,7 @@ PROPS = {
                 dict(module="MC_JacobianImpl", cfg="MC_JacobianImpl_mulneg", expect="violation", about="negative: window multiplication over the unfixed addition must be refuted"),
                 dict(module="MC_Mont", about="register-level Montgomery mul / add / sub with R = 2^7: every prime in (64,128) x every operand pair")],
         stages=[dict(suite="sm2ec", nda="compare", trace="TraceSM2", plan=dict(module="PlanField", cfg_quick="PlanField", cfg_thorough="PlanField_t"),
-                     required_classes={"both": ["ec.valid_affine/valid-affine.x=0", "ec.valid_affine/valid-affine.on", "ec.valid_affine/valid-affine.off", "fp.op/fp.mul.planned-window", "fn.op/fn.mul.planned-window", "ec.add/add.P=Q", "ec.add/add.P=Q.diffZ", "ec.add/add.P=-Q", "ec.add/add.O+Q", "ec.add/add.generic", "ec.add/add.same-y", "ec.add/add.O+Q.otherO", "ec.add/add.P+O.otherO", "ec.add/add.O+O.otherO", "ec.smul/smul.k=n", "ec.smul/smul.k>n",
+                     required_classes={"both": ["fp.op/fp.mul.low-words-zero", "fp.op/fp.sqr.low-words-zero", "fp.op/fp.pow.all-digits", "ec.valid_affine/valid-affine.x=0", "ec.valid_affine/valid-affine.on", "ec.valid_affine/valid-affine.off", "fp.op/fp.mul.planned-window", "fn.op/fn.mul.planned-window", "ec.add/add.P=Q", "ec.add/add.P=Q.diffZ", "ec.add/add.P=-Q", "ec.add/add.O+Q", "ec.add/add.generic", "ec.add/add.same-y", "ec.add/add.O+Q.otherO", "ec.add/add.P+O.otherO", "ec.add/add.O+O.otherO", "ec.smul/smul.k=n", "ec.smul/smul.k>n",
                                                 "ec.smul/smul.k=0", "ec.gmul/gmul.k<n", "ec.valid/valid.off", "ec.table/table.entry", "ec.table/table.row-base",
                                                 "fp.op/fp.mul.near-modulus", "fp.op/fp.add.near-2^256-m", "fn.op/fn.add.near-modulus"]})],
         assumptions=["Weierstrass.tla is the affine group law; verdicts are on denotations (X/Z^2, Y/Z^3 of the Montgomery-decoded coordinates)", "BigNat Java override (cross-checked by MC_BigNat)"],
@@ -200,7 +200,7 @@ PROPS = {
                 dict(module="MC_SM9Sig", about="exponent model Z_7 with lazily sampled random oracle and single-field tampering: honest => accept; h out of range => error; accepted forgery => coincidence"),
                 dict(module="MC_SM9Sig", cfg="MC_SM9Sig_neg", expect="violation", about="negative: the forgery invariant without the coincidence classes must be refuted (invariant is tight)")],
         stages=[dict(suite="sm9sig", nda="validate", trace="TraceSM9", plan=dict(module="PlanSM9", cfg_quick="PlanSM9_q", cfg_thorough="PlanSM9_t"), timeout=3400,
-                     required_classes={"both": ["sm9.sign/sign.no-key", "sm9.sign/sign.fixed-r", "sm9.sign/sign.free-r", "sm9.verify/verify.untouched", "sm9.verify/verify.spec-made", "sm9.verify/verify.h-range",
+                     required_classes={"both": ["sm9.verify/verify.verifier-only-key", "sm9.sign/sign.no-key", "sm9.sign/sign.fixed-r", "sm9.sign/sign.free-r", "sm9.verify/verify.untouched", "sm9.verify/verify.spec-made", "sm9.verify/verify.h-range",
                                                 "sm9.verify/verify.S-bitflip", "sm9.verify/verify.altered-master-key"]})],
         assumptions=["SM9.tla transcribes GM/T 0044.2 (Annex A signature as ASSUME); derived evaluator g = G0^ks for honest events"],
     ),
@@ -253,7 +253,7 @@ PROPS = {
                 dict(module="MC_Booth", about="sm9_u256_get_booth on toy limbs: every scalar reconstructs, digits in range, top digit non-negative"),
                 dict(module="MC_Mont", about="register-level Montgomery mul / add / sub with R = 2^7")],
         stages=[dict(suite="sm9arith", nda="compare", trace="TraceSM9", timeout=3400,
-                     required_classes={"both": ["gt.pow/gt.pow.fp12.sparse", "gt.pow/gt.pow.fp12.e=N-2", "tower.op/fp2.inv.z0x", "tower.op/fp2.mul.zxx", "tower.op/fp4.inv.z0x0x", "tower.op/fp12.mul.mfff", "modn.op/modn.mul.near-modulus",
+                     required_classes={"both": ["modn.op/modn.add.near-modulus-sum", "tower.op/fp1.add.near-modulus-sum", "gt.pow/gt.pow.fp12.sparse", "gt.pow/gt.pow.fp12.e=N-2", "tower.op/fp2.inv.z0x", "tower.op/fp2.mul.zxx", "tower.op/fp4.inv.z0x0x", "tower.op/fp12.mul.mfff", "modn.op/modn.mul.near-modulus",
                                                 "g1.op/g1.add.P=Q.jac-jac", "g1.op/g1.add.P=-Q.jac-jac", "g2.op/g2.add.P=Q.jac-jac", "g2.op/g2.equals.P=-Q.jac-jac", "g2.op/g2.add.generic.affine-jac", "g2.op/g2.add_full.generic.same-y-jac", "g2.op/g2.add.generic.same-y-affine", "g2.op/g2.add.generic.specialz=-1", "g2.op/g2.add_full.generic.specialz=u",
                                                 "booth/booth.w5.recode", "booth/booth.w7.recode", "g1.table/table.entry", "g1.table/table.row-base"]})],
         assumptions=["BN.tla: Fp12 as the polynomial ring Fp[w]/(w^12+2); tower elements are judged through the embedding u = w^6, v = w^3"],
@@ -266,7 +266,7 @@ PROPS = {
         models=[dict(module="MC_SignLive", about="toy group: signing terminates (liveness under a fair source) for every key in [1, n-2] and every digest; signatures in range"),
                 dict(module="MC_SignLive", cfg="MC_SignLive_neg", expect="violation", about="negative: a constructor admitting d = n-1 must yield the non-terminating lasso")],
         stages=[dict(suite="api", nda="validate", trace="TraceApi",
-                     required_classes={"both": ["sm9.verify_s_unreduced/sm9.verify_s_unreduced.degenerate.len0", "sm9.encrypt_q_infinity/sm9.encrypt_q_infinity.degenerate.len0", "sm9.kx1b_r_infinity/sm9.kx1b_r_infinity.degenerate.len0", "sm9.hash2/sm9.hash2.long.len>=98", "sm9.sign_msg/sm9.sign_msg.ladder.len>=98", "sm9.verify_msg/sm9.verify_msg.ladder.len>=98", "sm2.sign_msg/sm2.sign_msg.ladder.len>=98", "sm2.verify/sm2.verify.content.len0", "sm2.decrypt.uncomp/sm2.decrypt.uncomp.content.len<98", "sm4.new/sm4.new.content.len<16", "sm4.cbc_dec/sm4.cbc_dec.content.len0",
+                     required_classes={"both": ["sm2.verify_longid/sm2.verify_longid.long-id.len>=98", "sm2.sign_longid/sm2.sign_longid.long-id.len>=98", "sm9.verify_s_unreduced/sm9.verify_s_unreduced.degenerate.len0", "sm9.encrypt_q_infinity/sm9.encrypt_q_infinity.degenerate.len0", "sm9.kx1b_r_infinity/sm9.kx1b_r_infinity.degenerate.len0", "sm9.hash2/sm9.hash2.long.len>=98", "sm9.sign_msg/sm9.sign_msg.ladder.len>=98", "sm9.verify_msg/sm9.verify_msg.ladder.len>=98", "sm2.sign_msg/sm2.sign_msg.ladder.len>=98", "sm2.verify/sm2.verify.content.len0", "sm2.decrypt.uncomp/sm2.decrypt.uncomp.content.len<98", "sm4.new/sm4.new.content.len<16", "sm4.cbc_dec/sm4.cbc_dec.content.len0",
                                                 "sm9.decrypt/sm9.decrypt.content.len<98", "sm9.from_hash/sm9.from_hash.content.len<40", "sm9.from_hash/sm9.from_hash.content.len<98", "sm2.pkcs8_der/sm2.pkcs8_der.corrupted.len>=98", "sm2.decrypt_asn1/sm2.decrypt_asn1.der-shape.len<98", "sm2.decrypt_asn1/sm2.decrypt_asn1.corrupted.len>=98",
                                                 "sm2.sign_with_key/sm2.sign_with_key.d=n-1.len<33", "sm9.verify/sm9.verify.arbitrary.len<33"]})],
         assumptions=["Api.tla: total outcome function; length rules of the standards"],
